@@ -179,30 +179,153 @@ func ruleH1(c *Ctx) {
 	}
 }
 
-// handlerCall is a call through a handler slot.
+// handlerCall is a call through a handler slot: directly (`stub.handlers.S(…)`), or through a helper
+// that is handed the slot's value and calls it (`callHandler(ctx, stub.handlers.S, evt)`).
 type handlerCall struct {
-	fn   *ssa.Function
-	slot string
-	call *ssa.Call
+	fn    *ssa.Function // the function that reads the slot
+	slot  string
+	call  *ssa.Call                    // the call in fn: the dynamic call itself, or the call of the helper
+	inner *ssa.Call                    // the dynamic call (== call when direct)
+	argOf map[*ssa.Parameter]ssa.Value // helper parameter -> argument in fn (nil when direct)
+}
+
+func isStubPtr(m *Module, v ssa.Value) bool {
+	if v == nil {
+		return false
+	}
+	p, ok := v.Type().Underlying().(*types.Pointer)
+	return ok && types.Identical(p.Elem(), m.named(pkgStub, "stub"))
+}
+
+func slotOf(m *Module, v ssa.Value, at ssa.Instruction) string {
+	for _, src := range valueSources(v, at, 0) {
+		a := m.ap(src)
+		if isStubPtr(m, a.Root) && len(a.Path) == 2 && a.Path[0] == "handlers" {
+			return a.Path[1]
+		}
+	}
+	return ""
 }
 
 func handlerCalls(m *Module) []handlerCall {
 	var out []handlerCall
-	for _, f := range m.methodsOf(pkgStub, "stub") {
+	for _, f := range m.funcsInPkg(pkgStub) {
 		for _, ci := range calls(f) {
 			call, ok := ci.(*ssa.Call)
-			if !ok || call.Call.IsInvoke() || m.callee(call.Common()) != nil {
+			if !ok || call.Call.IsInvoke() {
 				continue
 			}
-			for _, src := range valueSources(call.Call.Value, call, 0) {
-				a := m.ap(src)
-				if a.Root == ssa.Value(f.Params[0]) && len(a.Path) == 2 && a.Path[0] == "handlers" {
-					out = append(out, handlerCall{f, a.Path[1], call})
+			g := m.callee(call.Common())
+			if g == nil {
+				if slot := slotOf(m, call.Call.Value, call); slot != "" {
+					out = append(out, handlerCall{f, slot, call, call, nil})
+				}
+				continue
+			}
+			if g.Pkg == nil || g.Pkg.Pkg.Path() != pkgStub || len(g.Blocks) == 0 {
+				continue
+			}
+			for j, a := range call.Call.Args {
+				if _, isFn := a.Type().Underlying().(*types.Signature); !isFn {
+					continue
+				}
+				slot := slotOf(m, a, call)
+				if slot == "" {
+					continue
+				}
+				// the helper calls that parameter
+				for _, ici := range calls(g) {
+					ic, ok := ici.(*ssa.Call)
+					if !ok || ic.Call.IsInvoke() || m.callee(ic.Common()) != nil {
+						continue
+					}
+					for _, src := range valueSources(ic.Call.Value, ic, 0) {
+						if src == ssa.Value(g.Params[j]) {
+							argOf := map[*ssa.Parameter]ssa.Value{}
+							for k, p := range g.Params {
+								argOf[p] = call.Call.Args[k]
+							}
+							out = append(out, handlerCall{f, slot, call, ic, argOf})
+						}
+					}
 				}
 			}
 		}
 	}
 	return out
+}
+
+// argAP: the access path of the handler's i-th argument, expressed over the values of hc.fn.
+func (hc handlerCall) argAP(m *Module, i int) AP {
+	a := m.ap(hc.inner.Call.Args[i])
+	if hc.argOf == nil {
+		return a
+	}
+	if p, ok := a.Root.(*ssa.Parameter); ok {
+		if outer, ok := hc.argOf[p]; ok {
+			o := m.ap(outer)
+			for _, st := range a.Path {
+				o = o.extend(st)
+			}
+			return o
+		}
+	}
+	return a
+}
+
+// errorReturnedUp: result #idx of call is returned as the error of its function and, when that
+// function is a helper rather than an RPC method of the stub, by every caller in turn.
+func errorReturnedUp(m *Module, call *ssa.Call, idx, depth int) bool {
+	f := call.Parent()
+	nres := call.Call.Signature().Results().Len()
+	ok := false
+	for _, r := range returnsOf(f) {
+		if !instrCanReach(call, r) || len(r.Results) == 0 {
+			continue
+		}
+		for _, v := range returnValues(r, len(r.Results)-1) {
+			if nres == 1 && v == ssa.Value(call) {
+				ok = true
+			}
+			if ex, isEx := v.(*ssa.Extract); isEx && ex.Tuple == ssa.Value(call) && ex.Index == idx {
+				ok = true
+			}
+		}
+	}
+	if !ok {
+		return false
+	}
+	if f.Signature.Recv() != nil && token.IsExported(f.Name()) {
+		return true
+	}
+	cs := m.callersOf(f)
+	if depth > 3 || len(cs) == 0 {
+		return f.Signature.Recv() != nil
+	}
+	for _, x := range cs {
+		oc, isCall := x.Instr.(*ssa.Call)
+		if !isCall || !errorReturnedUp(m, oc, oc.Call.Signature().Results().Len()-1, depth+1) {
+			return false
+		}
+	}
+	return true
+}
+
+// reachedOnlyFrom: f is root or all of its (transitive) callers lead to root only.
+func reachedOnlyFrom(m *Module, f, root *ssa.Function, depth int) bool {
+	if f == root {
+		return true
+	}
+	cs := m.callersOf(f)
+	if len(cs) == 0 || depth > 3 || len(m.funcRefs(f)) > 0 {
+		return false
+	}
+	for _, x := range cs {
+		if !reachedOnlyFrom(m, x.Caller, root, depth+1) {
+			return false
+		}
+	}
+	return true
 }
 
 func ruleH2(c *Ctx) {
@@ -216,6 +339,18 @@ func ruleH2(c *Ctx) {
 		bySlot[hc.slot] = append(bySlot[hc.slot], hc)
 	}
 	slots := m.structOf(pkgStub, "handlers")
+	stateChange := m.method(pkgStub, "stub", "StateChange")
+	// the message parameter of a function: its parameter of the given api type (nil: any api message)
+	msgParam := func(f *ssa.Function, typ string) ssa.Value {
+		for _, p := range f.Params {
+			if n := ptrNamed(p.Type()); n != nil && n.Obj().Pkg() != nil && n.Obj().Pkg().Path() == pkgAPI {
+				if typ == "" || n.Obj().Name() == typ {
+					return p
+				}
+			}
+		}
+		return nil
+	}
 	// expected argument fields per slot (after ctx); frozen only where two parameters share a type
 	frozen := map[string][]string{"UpdatePodSandbox": {"Pod", "OverheadLinuxResources", "LinuxResources"}}
 	for i := 0; i < slots.NumFields(); i++ {
@@ -229,17 +364,16 @@ func ruleH2(c *Ctx) {
 		}
 		hc := hl[0]
 		bad := ""
-		inState := hc.fn.Name() == "StateChange"
-		isEventSlot := false
-		for _, n := range names {
-			if n == slot {
-				isEventSlot = true
-			}
-		}
+		ownMethod := m.methodOpt(pkgStub, "stub", slot)
+		inState := false
 		switch {
-		case inState:
+		case ownMethod != nil && reachedOnlyFrom(m, hc.fn, ownMethod, 0):
+		case slot == "Synchronize" && reachedOnlyFrom(m, hc.fn, m.method(pkgStub, "stub", "Synchronize"), 0):
+		case reachedOnlyFrom(m, hc.fn, stateChange, 0):
+			inState = true
 			// controlled by evt.Event == E with names[E] == slot
 			found := false
+			evt := msgParam(hc.fn, "StateChangeEvent")
 			for _, cd := range controls(hc.call.Block()) {
 				cd = normCond(cd)
 				bo, ok := cd.V.(*ssa.BinOp)
@@ -248,7 +382,7 @@ func ruleH2(c *Ctx) {
 				}
 				ea := m.ap(bo.X)
 				cv, isC := constInt(bo.Y)
-				if !isC || ea.Root != ssa.Value(hc.fn.Params[2]) || ea.PathString() != "Event" {
+				if !isC || evt == nil || ea.Root != evt || ea.PathString() != "Event" {
 					continue
 				}
 				for en, v := range evConst {
@@ -264,15 +398,13 @@ func ruleH2(c *Ctx) {
 			if !found && bad == "" {
 				bad = "the call is not under the case of the event named like the handler"
 			}
-		case hc.fn.Name() == slot || (slot == "Synchronize" && hc.fn.Name() == "deliverSync"):
 		default:
 			bad = fmt.Sprintf("handler %s is called from %s", slot, hc.fn.Name())
 		}
-		_ = isEventSlot
 		// arguments
 		if bad == "" && slot != "Synchronize" && slot != "Shutdown" && slot != "Configure" {
-			msg := hc.fn.Params[2]
-			sig := hc.call.Call.Signature()
+			msg := msgParam(hc.fn, "")
+			sig := hc.inner.Call.Signature()
 			var wantF []string
 			if fz, ok := frozen[slot]; ok {
 				wantF = fz
@@ -292,32 +424,41 @@ func ruleH2(c *Ctx) {
 				}
 			}
 			for i, wf := range wantF {
-				a := m.ap(hc.call.Call.Args[i+1])
-				if a.Root != ssa.Value(msg) || a.PathString() != wf {
+				a := hc.argAP(m, i+1)
+				if msg == nil || a.Root != msg || a.PathString() != wf {
 					bad = fmt.Sprintf("argument %d is %s, want the message's %s", i+1, a, wf)
 				}
 			}
 		}
-		// results
-		if bad == "" && hc.call.Call.Signature().Results().Len() > 0 && slot != "Configure" {
-			sig := hc.call.Call.Signature()
-			nres := sig.Results().Len()
-			// error
-			okErr := false
-			for _, r := range returnsOf(hc.fn) {
-				if !instrCanReach(hc.call, r) {
+		// a helper passes the handler's results through unchanged
+		if bad == "" && hc.inner != hc.call {
+			g := hc.inner.Parent()
+			nres := hc.inner.Call.Signature().Results().Len()
+			if g.Signature.Results().Len() != nres {
+				bad = "the helper " + funcKey(g) + " does not return the handler's results"
+			}
+			for _, r := range returnsOf(g) {
+				if !instrCanReach(hc.inner, r) || bad != "" {
 					continue
 				}
-				for _, v := range returnValues(r, len(r.Results)-1) {
-					if nres == 1 && v == ssa.Value(hc.call) {
-						okErr = true
-					}
-					if ex, ok := v.(*ssa.Extract); ok && ex.Tuple == ssa.Value(hc.call) && ex.Index == nres-1 {
-						okErr = true
+				for i := 0; i < nres; i++ {
+					for _, v := range returnValues(r, i) {
+						okV := nres == 1 && v == ssa.Value(hc.inner)
+						if ex, isEx := v.(*ssa.Extract); isEx && ex.Tuple == ssa.Value(hc.inner) && ex.Index == i {
+							okV = true
+						}
+						if !okV {
+							bad = fmt.Sprintf("the helper %s does not return the handler's result #%d unchanged", funcKey(g), i)
+						}
 					}
 				}
 			}
-			if !okErr {
+		}
+		// results
+		if bad == "" && hc.inner.Call.Signature().Results().Len() > 0 && slot != "Configure" {
+			sig := hc.inner.Call.Signature()
+			nres := sig.Results().Len()
+			if !errorReturnedUp(m, hc.call, nres-1, 0) {
 				bad = "the handler's error is not what the method returns"
 			}
 			// data results -> response fields
@@ -345,8 +486,9 @@ func ruleH2(c *Ctx) {
 		// nil-handler path
 		if bad == "" && !inState && slot != "Synchronize" {
 			okNil := false
-			for _, r := range returnsOf(hc.fn) {
-				if domInstr(hc.call, r) {
+			g := hc.inner.Parent()
+			for _, r := range returnsOf(g) {
+				if domInstr(hc.inner, r) {
 					continue
 				}
 				for _, v := range returnValues(r, len(r.Results)-1) {
